@@ -1,16 +1,20 @@
 (* C21: strided-interval transfer functions are sound.
    Proved for every width (below the resource limit), every operand and every pair of members:
      add                      (C21_add)
-     sub, neg                 when the subtracted interval's upper bound is one of its members (C21_sub, C21_neg)
-   and refuted without that hypothesis (C21_sub_unaligned_refuted: the witness is a known finding).
-     zero_extend              when the interval does not wrap around (C21_zext), refuted when it does (C21_zext_wrapping_refuted:
-                              a known finding)
+     sub, neg                 for every subtrahend whose stride is 0 only if it is a single value (C21_sub, C21_neg): sub as
+                              repaired first replaces the subtrahend's upper bound by its last member; the pinned rule
+                              (without that step) is refuted on the witness of the former known finding
+                              (C21_sub_unaligned_refuted)
+     zero_extend              for every interval (C21_zext): as repaired, a wrapping interval is split first; relabelling alone
+                              (the pinned rule) is refuted on the witness of the former known finding (C21_zext_wrapping_refuted)
+     bitwise_not              for every interval (C21_not): as repaired, complemented from the last member of every piece
      ULT, ULE, UGT, UGE       a TrueResult / FalseResult holds for every pair of members (C21_ult .. C21_uge), and the
                               comparison is answered whenever a wrapping operand has a positive stride (C21_ucmp_total)
      SLT, SLE, SGT, SGE       the same for the signed reading of the members (C21_slt .. C21_sge), with _signed_bounds as
                               repaired (split at the south pole, then at the north pole, skipping pieces without members)
    The other transfer functions are not modelled; they are covered by the sweep of the real code only. *)
-Require Import CV.Model.PyPrelude CV.Model.SI CV.Proofs.SISound CV.Proofs.SIZext CV.Model.SICmp CV.Proofs.SICmpSound.
+Require Import CV.Model.PyPrelude CV.Model.SI CV.Proofs.SISound CV.Model.SIZextM CV.Proofs.SIZext CV.Model.SICmp CV.Proofs.SICmpSound.
+Require Import CV.Model.SINot CV.Proofs.SINotSound.
 From Coq Require Import ZArith List.
 Open Scope Z_scope.
 
@@ -21,15 +25,15 @@ Proof. exact add_sound. Qed.
 Print Assumptions C21_add.
 
 Theorem C21_sub : forall a b x y,
-  wf a -> wf b -> bits a = bits b -> aligned b -> gamma a x -> gamma b y ->
+  wf a -> wf b -> bits a = bits b -> proper b -> gamma a x -> gamma b y ->
   exists r, si_sub a b = Ok r /\ wf r /\ bits r = bits a /\ gamma r ((x - y) mod 2 ^ bits a).
-Proof. exact sub_sound. Qed.
+Proof. exact sub_sound_proper. Qed.
 Print Assumptions C21_sub.
 
 Theorem C21_neg : forall a y,
-  wf a -> aligned a -> gamma a y ->
+  wf a -> proper a -> gamma a y ->
   exists r, si_neg a = Ok r /\ wf r /\ bits r = bits a /\ gamma r ((- y) mod 2 ^ bits a).
-Proof. exact neg_sound. Qed.
+Proof. exact neg_sound_proper. Qed.
 Print Assumptions C21_neg.
 
 Theorem C21_normalize : forall a,
@@ -40,16 +44,19 @@ Print Assumptions C21_normalize.
 Theorem C21_sub_unaligned_refuted :
   let '(a, b) := sub_unaligned_witness in
   wf a /\ wf b /\ gamma a 0 /\ gamma b 0 /\
-  exists r, si_sub a b = Ok r /\ ~ In ((0 - 0) mod 2 ^ bits a) (members r).
+  (exists r, si_sub_core a b = Ok r /\ ~ In ((0 - 0) mod 2 ^ bits a) (members r)) /\
+  (exists r, si_sub a b = Ok r /\ In ((0 - 0) mod 2 ^ bits a) (members r)).
 Proof. exact sub_unaligned_refuted. Qed.
 Print Assumptions C21_sub_unaligned_refuted.
 
-Theorem C21_zext : forall a n x, wf a -> lb a <= ub a -> bits a <= n -> gamma a x -> gamma (si_zext a n) x.
+Theorem C21_zext : forall a n r x, wf a -> bits a <= n < SHIFT_LIMIT -> si_zext a n = Ok r -> gamma a x ->
+  wf r /\ bits r = n /\ gamma r x.
 Proof. exact zext_sound. Qed.
 Print Assumptions C21_zext.
 
 Theorem C21_zext_wrapping_refuted :
-  let a := mkSI 2 3 1 0 false in wf a /\ gamma a 0 /\ ~ In 0 (members (si_zext a 3)).
+  let a := mkSI 2 3 1 0 false in wf a /\ gamma a 0 /\ ~ In 0 (members (relabel a 3)) /\
+  exists r, si_zext a 3 = Ok r /\ In 0 (members r) /\ In 1 (members r).
 Proof. exact zext_wrapping_refuted. Qed.
 Print Assumptions C21_zext_wrapping_refuted.
 
@@ -108,3 +115,8 @@ Theorem C21_unsigned_bounds : forall a bs x, wf a -> unsigned_bounds a = Ok bs -
   exists p, In p bs /\ fst p <= x <= snd p.
 Proof. exact bounds_cover. Qed.
 Print Assumptions C21_unsigned_bounds.
+
+Theorem C21_not : forall a r x, wf a -> proper a -> si_not a = Ok r -> gamma a x ->
+  wf r /\ bits r = bits a /\ gamma r (2 ^ bits a - 1 - x).
+Proof. exact not_sound. Qed.
+Print Assumptions C21_not.
